@@ -28,13 +28,10 @@ def step (w : World) (toks : List String) : World × String :=
     (w, s!"hdr {dataHeaderSize} tag {tagSize} overhead {overhead} msghdr {headerSize} version {versionV1}")
   | ["chan", sl, ol, _seed, start] => match sl.toNat?, ol.toNat?, start.toNat? with
     | some sl, some ol, some start =>
-      let ch : Chan := { key := w.chans.length, sealLabel := sl, openLabel := ol, seq := start }
-      ({ w with chans := w.chans ++ [ch] }, s!"ok {w.chans.length}")
+      (w.addChan sl ol start, s!"ok {w.chans.length}")
     | _, _, _ => (w, "bad-op")
   | ["rm", c] => match c.toNat? with
-    | some c => match w.chans[c]? with
-      | some ch => (w.setChan c { ch with removed := true }, "ok")
-      | none => (w, "err NotFound")
+    | some c => if c < w.chans.length then (w.rmChan c, "ok") else (w, "err NotFound")
     | none => (w, "bad-op")
   | ["seal", c, dstlen, pt, oracle] => match c.toNat?, dstlen.toNat?, Driver.hex? pt, Driver.hex? oracle with
     | some c, some dstlen, some pt, some oracle =>
